@@ -46,6 +46,10 @@ type Inst struct {
 	ExpSize  int `json:"exp_size,omitempty"`
 	ExpScale int `json:"exp_scale,omitempty"`
 	ExpSign  int `json:"exp_sign,omitempty"`
+	// ExDrop: a View attribute filter drops the attribute "ex.url" from this
+	// (synchronous) instrument's streams; a measurement that carries it
+	// (Meas.Ex 2 or 3) hands it to the exemplar as a filtered attribute.
+	ExDrop bool `json:"ex_drop,omitempty"`
 	// Obs[r][t] is what the callback of an observable instrument reports in
 	// round r for tuple t (same scaling as Meas.V).
 	Obs [][]int `json:"obs,omitempty"`
@@ -56,6 +60,12 @@ type Meas struct {
 	I int `json:"i"` // instrument index
 	T int `json:"t"` // tuple index
 	V int `json:"v"` // the value for int64 instruments, value*8 for float64 instruments
+	// Ex > 0: the measurement is made inside a SAMPLED span context (trace and
+	// span id derived from its position), so the default trace-based exemplar
+	// filter offers it to the reservoir. 1: no extra attribute; 2: plus
+	// ex.url=<short value>; 3: plus ex.url=<89 characters> (exemplar labels
+	// beyond Prometheus' 128 runes). 2 and 3 only on instruments with ExDrop.
+	Ex int `json:"ex,omitempty"`
 }
 
 // Case is one registry: options, provider content, the measurement rounds
@@ -75,6 +85,12 @@ type Case struct {
 	// Rounds: sequential cases scrape after every round; concurrent cases run
 	// every round on its own goroutine.
 	Rounds [][]Meas `json:"rounds"`
+
+	// Early: the registry is scraped once BEFORE the exporter is handed to
+	// the MeterProvider. Ghost: a second exporter with its own registry that is
+	// never registered with any provider is scraped after every scrape.
+	Early bool `json:"early,omitempty"`
+	Ghost bool `json:"ghost,omitempty"`
 
 	Conc        bool `json:"conc"`
 	Gatherers   int  `json:"gatherers,omitempty"`    // concurrent cases: goroutines calling Gather
@@ -274,6 +290,16 @@ func genValue(t *rapid.T, in *Inst) int {
 	}
 }
 
+func genMeas(t *rapid.T, i int, in *Inst) Meas {
+	m := Meas{I: i, T: rapid.IntRange(0, in.ntuples()-1).Draw(t, "t"), V: genValue(t, in)}
+	if in.ExDrop {
+		m.Ex = rapid.SampledFrom([]int{0, 2, 0, 1, 2, 2, 0, 3}).Draw(t, "ex")
+	} else {
+		m.Ex = rapid.SampledFrom([]int{0, 0, 0, 1}).Draw(t, "ex")
+	}
+	return m
+}
+
 func genInst(t *rapid.T, idx, base, nscopes, rounds int, prev *Inst) Inst {
 	in := Inst{}
 	// histograms twice as likely as any other kind: two aggregations to cover
@@ -283,6 +309,9 @@ func genInst(t *rapid.T, idx, base, nscopes, rounds int, prev *Inst) Inst {
 		in.ExpSize = rapid.SampledFrom([]int{160, 20, 4}).Draw(t, "expsize")
 		in.ExpScale = rapid.SampledFrom([]int{20, 3, 0, -2}).Draw(t, "expscale")
 		in.ExpSign = rapid.SampledFrom([]int{2, 2, 0, 1}).Draw(t, "expsign")
+	}
+	if !isObservable(in.Kind) && rapid.IntRange(0, 3).Draw(t, "exdrop") == 2 {
+		in.ExDrop = true
 	}
 	if prev != nil && rapid.IntRange(0, 19).Draw(t, "clash") == 7 {
 		in.Name = variant(t, prev.Name)
@@ -412,6 +441,8 @@ func genCase(conc bool) func(t *rapid.T) Case {
 			}
 			c.Scopes = append(c.Scopes, s)
 		}
+		c.Early = rapid.IntRange(0, 3).Draw(t, "early") == 1
+		c.Ghost = rapid.IntRange(0, 3).Draw(t, "ghost") == 1
 		rounds := rapid.IntRange(1, 3).Draw(t, "rounds")
 		ni := rapid.IntRange(1, 6).Draw(t, "ninsts")
 		base := rapid.IntRange(0, len(stems)-1).Draw(t, "stembase")
@@ -440,7 +471,7 @@ func genCase(conc bool) func(t *rapid.T) Case {
 				for _, i := range sync {
 					if rapid.IntRange(0, 9).Draw(t, "seed") < 8 {
 						in := c.Insts[i]
-						c.Rounds[r] = append(c.Rounds[r], Meas{I: i, T: rapid.IntRange(0, in.ntuples()-1).Draw(t, "t"), V: genValue(t, &in)})
+						c.Rounds[r] = append(c.Rounds[r], genMeas(t, i, &in))
 					}
 				}
 			}
@@ -452,13 +483,13 @@ func genCase(conc bool) func(t *rapid.T) Case {
 					continue
 				}
 				for k := rapid.IntRange(0, 5).Draw(t, "expextra"); k > 0; k-- {
-					c.Rounds[r] = append(c.Rounds[r], Meas{I: i, T: rapid.IntRange(0, in.ntuples()-1).Draw(t, "t"), V: genValue(t, &in)})
+					c.Rounds[r] = append(c.Rounds[r], genMeas(t, i, &in))
 				}
 			}
 			for k := 0; k < n; k++ {
 				i := rapid.SampledFrom(sync).Draw(t, "mi")
 				in := c.Insts[i]
-				c.Rounds[r] = append(c.Rounds[r], Meas{I: i, T: rapid.IntRange(0, in.ntuples()-1).Draw(t, "t"), V: genValue(t, &in)})
+				c.Rounds[r] = append(c.Rounds[r], genMeas(t, i, &in))
 			}
 		}
 		if conc {
